@@ -113,6 +113,18 @@ def run(ctx):
                 call_args(same_elements(owner_t[1]))[-1] == ("param", 2)
             # deep or shallow branch
             kind = None
+            foreign = []   # conditions other than the deep/shallow test: every history child of every exited state is recorded
+            for t, pol, raw in guard_terms(ex, c):
+                is_ht = False
+                if t[0] == "bin" and t[1] in ("Eq", "Ne") and pol is not None:
+                    sides = [t[2], t[3]]
+                    ht = [s for s in sides if s == ("field", "history_type", key_t)]
+                    dv = [s for s in sides if s[0] == "def" and (s[1] or "").startswith("fsm::HistoryType::")]
+                    is_ht = bool(ht and dv)
+                elif t[0] == "arm" and t[2] == ("field", "history_type", key_t):
+                    is_ht = True
+                if not is_ht:
+                    foreign.append((show(t), pol))
             for t, pol, raw in guard_terms(ex, c):
                 if t[0] == "bin" and t[1] in ("Eq", "Ne") and pol is not None:
                     sides = [t[2], t[3]]
@@ -168,6 +180,8 @@ def run(ctx):
             ctx.ob("R06.2", site_key(ex, "key is the history state's id", i), ok_key and ok_owner, line_of(c),
                    "key %s; owner ranges over computeExitSet(enabledTransitions): %s" % (show(key_t), bool(ok_owner)))
             ctx.ob("R06.2", site_key(ex, "%s filter" % (kind or "unclassified"), i), ok_val, line_of(c), why)
+            ctx.ob("R06.2", site_key(ex, "recorded for every history child of every exited state", i), not foreign, line_of(c),
+                   "conditions besides the deep/shallow test: %s" % (foreign or "none"))
         ctx.ob("R06.2", site_key(ex, "one deep and one shallow branch"), kinds.get("deep") == 1 and kinds.get("shallow") == 1, ex.where,
                "record sites by branch: %s" % sorted((str(k), v) for k, v in kinds.items()))
         ctx.floor("R06.2", "configuration reads feeding recorded values", len(feeds), 2)
